@@ -62,11 +62,26 @@ def rule_same_value(ck, rid="C02.R2"):
     writes = state_writes(fl)
     inc = [(n, t) for n, k, p, t in writes if p == "self._energy_delivered"]
     rate = [(n, t) for n, k, p, t in writes if p == "self._current_charging_rate"]
-    ck.require(len(inc) == 1 and isinstance(inc[0][0].stmt, ast.AugAssign) and isinstance(inc[0][0].stmt.op, ast.Add), rid, ev,
+    def increment_of(n):
+        """the amount added to _energy_delivered by the store at n (x += e, or x = x + e possibly through a temporary), else None"""
+        st = n.stmt
+        if isinstance(st, ast.AugAssign) and isinstance(st.op, ast.Add):
+            return fl.expand(st.value, n)
+        if isinstance(st, ast.Assign):
+            v = fl.expand(st.value, n)
+            if isinstance(v, ast.BinOp) and isinstance(v.op, ast.Add):
+                if canon(v.left) == "self._energy_delivered":
+                    return v.right
+                if canon(v.right) == "self._energy_delivered":
+                    return v.left
+        return None
+    ck.require(len(inc) == 1 and increment_of(inc[0][0]) is not None, rid, ev,
                inc[0][1] if inc else "self._energy_delivered += ...", ok="energy is accumulated once per call",
                bad="EV.charge must add to _energy_delivered exactly once", sink="energy-increment")
     for n, t in inc:
-        e = fl.expand(n.stmt.value, n)
+        e = increment_of(n)
+        if e is None:
+            continue
         holder = "__RATE__"
         rest = canon(e).replace(call_s, holder)
         lv = {x for x in leaves(ast.parse(rest, mode="eval").body)} if holder in rest else set()
